@@ -137,8 +137,17 @@ def build(sc):
                                                  else None))
     if k == "comm":
         av = sc.get("avail")
+        form = sc.get("avail_form", "list")
+
+        def permitted():
+            # the library copies whatever iterable it is given (`list(available_addresses)`): every carrier of the
+            # same addresses must therefore behave like the list
+            if av is None:
+                return None
+            return {"list": list, "tuple": tuple, "iter": lambda x: iter(list(x)),
+                    "generator": lambda x: (a for a in list(x)), "dictkeys": lambda x: dict.fromkeys(x).keys()}[form](av)
         return ("start comm %s %d %d" % ("n" if av is None else lst(av), sc["readdress"], sc["dry"]),
-                lambda: S.Commissioning(available_addresses=None if av is None else list(av),
+                lambda: S.Commissioning(available_addresses=permitted(),
                                         readdress=bool(sc["readdress"]), dry_run=bool(sc["dry"])),
                 lambda r: "u" if r is None else None)
     raise ValueError(k)
